@@ -64,8 +64,9 @@ PROPS = {
                       'p-mer at the reported position, inside every k-mer; minimal score in the interval; an interval ends only when '
                       'the minimizer leaves the next k-mer or a strictly better p-mer enters). Proof by loop invariant, no sweep. '
                       'The guard 2k-p < 2^16 is necessary: the wrap of the u16 length is exhibited on the same model '
-                      '(scan_len_wrap_refuted) and on the real code (known finding F7). A boolean checker of (a)-(f), proved sound, '
-                      'is run on the intervals the implementation reports.',
+                      '(scan_len_wrap_refuted) and on the real code (known finding F7). Index panics and usize underflow are explicit in '
+                      'the model that is run against the code and proved absent under the guards. A boolean checker of (a)-(f), '
+                      'proved sound, is run on the intervals the implementation reports.',
         'level_note': 'Trusted: Coq kernel+VM; the hand transcription of msp.rs into coq/Algo/Scan.v (p-mers as base lists; the packed '
                       'p-mer type enters through the C10/C11 refinements get_kmer = substring, extend_right = shift); extraction; '
                       'harness. Index panics and usize underflow are modelled (scan_checked) and proved absent under the guards '
@@ -75,9 +76,15 @@ PROPS = {
         'rule': 'p-mer types Kmer2,3,4,5,6,8,10,12,16; k = p..p+9 and three larger; sequences of length k..6k over alphabets of 1-4 '
                 'letters with homopolymer runs, tandem repeats and hairpins, through DnaSlice / DnaString / DnaBytes; scores: '
                 'lexicographic rank, AT count, constant, 2-4 valued random table, random permutation, permutation with min(x, rc x); '
-                'simple_scan with explicit permutation tables (p <= 5); out-of-guard cases (|seq| < k, k < p) compared on panic; '
-                'the F7 witness; non-trivial = the implementation reports at least two intervals',
-        'assumptions': ['Scanner::scan is as transcribed in coq/Algo/Scan.v (checked by this run on the generated cases only)',
+                'k = 140, 300 (lengths beyond 255); simple_scan with explicit permutation tables (p <= 5); out-of-guard cases '
+                '(|seq| < k, k < p) compared on panic; the F7 witness; non-trivial = the implementation reports at least two '
+                'intervals',
+        'theorems': ['C07_scan_spec (full: clauses a-f + covered_once, all score functions, guard 2k-p < 2^len_bits)',
+                     'C07_no_inner_panic (bounds-checked model = total model on all inputs)', 'C07_scan_raw_ok', 'C07_covered_once',
+                     'C07_simple_scan_spec', 'C07_check_scan_sound (checker sound w.r.t. scan_ok)',
+                     'C07_scan_len_wrap_refuted (the guard is necessary; F7 at width 4)'],
+        'assumptions': ['Scanner::scan is as transcribed in coq/Algo/Scan.v (checked by this run on the generated cases only; field '
+                        'widths, assert bounds and casts are re-read from msp.rs on every run)',
                         'the caller\'s score closure is a pure function of the p-mer'],
     },
     'C08': {
@@ -85,16 +92,19 @@ PROPS = {
                       'emitted piece is the exact substring of the read at the tiling position and its extensions are the flanking '
                       'bases (none at a read end) (piece_exact); with an injective permutation table of 4^p entries the bucket of the '
                       'piece covering ANY occurrence of a k-mer equals shard_of(k-mer), a function of the k-mer alone (bucket_pure), '
-                      'which in rc mode is invariant under reverse complement (bucket_rc). A boolean checker of piece exactness and '
-                      'bucket purity over all occurrences in a read set is run on the implementation output.',
+                      'which in rc mode is invariant under reverse complement (bucket_rc). Guards as in C07 (in particular 2k-p < 2^16: '
+                      'beyond it msp_sequence inherits the wrapped length, known finding). A boolean checker of piece exactness and '
+                      'bucket purity over all occurrences in a read set, proved sound, is run on the implementation output.',
         'level_note': 'Trusted as for C07; the piece container V is represented by the string it holds (V::from_slice and get are the '
                       'business of C14/C17) and by its max_len. No axioms.',
         'technique': 'proof on top of the C07 scanner theorems (Coq), boolean checker on implementation outputs, differential '
                      'correspondence',
         'rule': 'read sets of 1-4 reads built from shared chunks in both orientations (recurring k-mers on both strands), p in '
                 '{2,3,4,5,6,8}, k = p+1..p+9 and two larger, default and random explicit permutations (p <= 5), rc mode on/off, piece '
-                'containers DnaBytes, DnaString, Lmer1/2/3 (including max_len < 2k-p: panic expected); non-trivial = some k-mer '
-                '(canonical in rc mode) is observed at least twice in the read set',
+                'containers DnaBytes, DnaString, Lmer1/2/3 (including max_len < 2k-p: panic expected); the 2k-p > 65535 witness; '
+                'non-trivial = some k-mer (canonical in rc mode) is observed at least twice in the read set',
+        'theorems': ['C08_piece_exact (full)', 'C08_bucket_pure (full: injective table of 4^p entries or default; all reads, all '
+                     'occurrences)', 'C08_bucket_rc (full)', 'C08_check_msp_sound (checker sound w.r.t. msp_out_ok)'],
         'assumptions': ['msp_sequence is as transcribed in coq/Algo/Msp.v (checked by this run on the generated cases only)',
                         'the permutation table is injective and has 4^p entries (hypothesis of bucket_pure)'],
     },
